@@ -306,7 +306,10 @@ def cases(tier):
     else:
         for lay in layouts7(['A', 'B', 'U']):
             out.append({'layout': lay, 'gapfrac': 0.05, 'gap_model': 'flow', 'max_steps': 25})
-        for lay in layouts7(['A', 'B', 'C', 'U', 'D', 'Ds', 'S', 'S5'], 1, 3):
+        for lay in layouts7(['A', 'B', 'C', 'U', 'D', 'Ds', 'S', 'S5'], 1, 2):
+            for gf in (0.002, 0.05):
+                out.append({'layout': lay, 'gapfrac': gf, 'gap_model': 'flow', 'max_steps': 40})
+        for lay in layouts7(['A', 'B', 'U', 'D', 'S'], 3, 3):
             for gf in (0.002, 0.05):
                 out.append({'layout': lay, 'gapfrac': gf, 'gap_model': 'flow', 'max_steps': 40})
         for lay in layouts7(['A', 'B'], 1, 7):
@@ -326,7 +329,7 @@ def cases(tier):
 
 def main(run):
     run.rule = ('every non-empty subset of the 7-position core x type assignment from the stated letters (quick: {A,B} '
-                'exhaustively, all letters for <= 2 assemblies; thorough: {A,B,U} exhaustively, all letters for <= 3, '
+                'exhaustively, all letters for <= 2 assemblies; thorough: {A,B,U} exhaustively, all letters for <= 2 and five letters for 3 assemblies, '
                 '19 positions with <= 2 vacancies); non-trivial = layout with at least one gap cell shared by two '
                 'assemblies, or an adiabatic core')
     run.assumptions = ['wetted lengths recomputed from the published gap cell boundaries (_asm_sc_xbnds)',
